@@ -79,6 +79,23 @@ CHECKS["C02"] = dict(
     note="Failed commits cannot be produced through the public API on this tree (no write sets are registered by sessions), so that end is not generated. Same trusted base as C01.",
 )
 
+CHECKS["C13"] = dict(
+    engine="RDF+SCHED",
+    technique="deterministic simulation: seeded histories of triple insert/remove/clear, transaction buffers and SPARQL updates over the real RdfStore / GrafeoDB, every lookup shape compared with a set model after every step; plus thread-scheduled same-triple insert/remove scenarios under shuttle",
+    category="exploration",
+    text="Decides the history-, transaction- and thread-dependent half of the property: after any generated history all 8 bound/unbound shapes, per-position lookups, counts and every open transaction's pending view equal a BTreeSet model (each match exactly once), and concurrent insert/remove of one triple leaves indexes and primary set describing the same set. SPARQL is reached only through a fixed template family evaluated by brute force.",
+    design_ref="DESIGN.md §3 C13",
+    note="NOT decided: 'all queries from the SPARQL core grammar' (pure function of triple set and query text). Ring index feature off.",
+)
+CHECKS["C15"] = dict(
+    engine="CODEC",
+    technique="deterministic simulation: seeded histories over the two stateful containers that embed the codecs (PropertyStorage with force-compress/decompress, ChunkedAdjacency with compaction, cold compression and freeze_all at chunk capacities 1/2/4/64), every read compared with a map / multiset model after every step",
+    category="exploration",
+    text="Decides the last sentence of the statement and the 'compressed adjacency chunks' item: a read after any history of writes, compressions and decompressions equals the model. The integer (zig-zag+delta/bit-pack/RLE via TypeSpecificCompressor), dictionary and boolean codecs run end to end through compress_as_*/decompress_all; DeltaBitPacked/BitPackedInts through cold adjacency chunks.",
+    design_ref="DESIGN.md §3 C15",
+    note="NOT decided: the per-codec round-trip / random-access / byte-serialisation laws over all input sequences (pure functions of the input; property-based testing territory). CompressionMode is not exported, so Auto/Eager thresholds are unreachable from outside the crate.",
+)
+
 NOT_APPLICABLE = {
     "C08": "pure function of (graph, query text): no schedule, clock, I/O, fault or shared state in the statement or its quantifier; differential/reference-interpreter testing is the fitting family, not simulation",
     "C09": "pure function of (graph, statistics state, query, optimizer switches); stale statistics are an input, not a schedule",
@@ -105,8 +122,10 @@ manifest = {
     "engines": [
         {"name": "TXM", "path": "sim/src/eng_txm.rs", "serves_properties": ["C03", "C04"], "kind_free_text": "single-threaded history simulator over TransactionManager with a reference model"},
         {"name": "STORE", "path": "sim/src/eng_store.rs", "serves_properties": ["C14"], "kind_free_text": "single-store history simulator over LpgStore with a brute-force reference graph"},
-        {"name": "HIST", "path": "sim/src/eng_hist.rs", "serves_properties": ["C01", "C02"], "kind_free_text": "multi-session history simulator: working tree, RefMvcc specification and the pinned twin (/verif/pinned) in lock-step"},
-        {"name": "SCHED", "path": "sim/src/eng_sched.rs", "serves_properties": ["C20"], "kind_free_text": "shuttle-scheduled simulated threads over the real stores/managers via the parking_lot lock seam (shims/parking_lot) and hooked atomics"},
+        {"name": "HIST", "path": "sim/src/eng_hist.rs", "serves_properties": ["C01", "C02", "C03"], "kind_free_text": "multi-session history simulator: working tree, RefMvcc specification and the pinned twin (/verif/pinned) in lock-step"},
+        {"name": "RDF", "path": "sim/src/eng_rdf.rs", "serves_properties": ["C13"], "kind_free_text": "history simulator over RdfStore / SPARQL templates with a set model"},
+        {"name": "CODEC", "path": "sim/src/eng_codec.rs", "serves_properties": ["C15"], "kind_free_text": "history simulator over PropertyStorage and ChunkedAdjacency with map models"},
+        {"name": "SCHED", "path": "sim/src/eng_sched.rs", "serves_properties": ["C20", "C03", "C13"], "kind_free_text": "shuttle-scheduled simulated threads over the real stores/managers via the parking_lot lock seam (shims/parking_lot) and hooked atomics"},
         {"name": "DISK", "path": "sim/src/eng_disk.rs", "serves_properties": ["C05", "C06"], "kind_free_text": "persistent GrafeoDB over a tapped tmpfs directory + simulated clock; crash images computed from the disk-event log"},
     ],
     "checks": [],
